@@ -23,7 +23,7 @@ DESIGN_REF = "DESIGN.md 4/C04"
 RULE = (
     "case = (expression tree, rendering style): all trees of depth 1 over the full 34-literal alphabet (every integer base, digit separators, every real-literal notation incl. negative exponents); all trees of depth 2 in "
     "which at most one operand of a binary operator is non-literal (both sides), unary and attribute operators over depth 1, over "
-    "the tier's mixed-kind literal sub-alphabet (quick 6, thorough 13 literals) and over an all-rational (5) and a boolean/rational (5) alphabet; 17 binary, 3 unary operators, attributes {min,max,count,"
+    "the tier's mixed-kind literal sub-alphabet (quick 5, thorough 13 literals) and over an all-rational (5) and a boolean/rational (5) alphabet; 17 binary, 3 unary operators, attributes {min,max,count,"
     "nonexistent}; 4 renderings each. Trees whose evaluation needs a non-integer or >64 exponent are outside C04's quantifier and "
     "skipped (counted). Non-trivial iff the tree has an operator; value-producing and rejected trees are counted separately in the "
     "outcome histogram; distinct by canonical hash of (tree, style)"
@@ -36,7 +36,7 @@ ASSUMPTIONS = [
 LITS_FULL = ["0", "1", "2", "3", "7", "0x10", "0b1_1", "0o17", "1_0", "1.5", "2e1", ".5", "1e-3", "25e-1", "1.5E+1", "0.1", "1_0.2_5", "3.", "1.e1", "00.5", "0X1f", "0B10", "0O7", "0_0",
              "true", "false", "'a'", '"b"', "'aé'",
              ["set", ["1", "2"]], ["set", ["2", "3"]], ["set", ["1.5"]], ["set", ["'a'", "'b'"]], ["set", ["true"]]]
-LITS_QUICK = ["0", "2", "3", "1.5", "true", ["set", ["1", "2"]]]  # strings: depth 1 (full alphabet) and the thorough tier
+LITS_QUICK = ["0", "3", "1.5", "true", ["set", ["1", "2"]]]  # strings: depth 1 (full alphabet) and the thorough tier
 LITS_THOROUGH = ["0", "1", "3", "0x10", "1.5", ".5", "true", "false", "'a'", '"b"', ["set", ["1", "2"]], ["set", ["2", "3"]], ["set", ["'a'", "'b'"]]]
 STYLES = ["min", "full", "tight", "wide"]
 
